@@ -178,9 +178,9 @@ def gather_masked(ex, a, idx, node):
     if ex.ctx.options.get("index_checks", True):
         dz = to_z3(a.shape[p], "int")
         g = forall_ranges([(0, M.full.shape[0])],
-                          lambda o: z3.Implies(M.mask.sel(o), z3.And(M.full.sel(o) >= -dz, M.full.sel(o) < dz)),
+                          lambda o: z3.Implies(M.mask.sel(o), z3.And(M.full.sel(o) >= 0, M.full.sel(o) < dz)),
                           patterns_fn=lambda o: [M.full.sel(o)])
-        ex.oblige("index_gather", g, f"every selected entry of the index array is within [-size, size) ({ast.unparse(node)[:50]})", node)
+        ex.oblige("index_gather", g, f"every selected entry of the index array is within [0, size) ({ast.unparse(node)[:50]})", node)
     _ghost_space(ex, a, M.full, node)
     idx2 = list(idx)
     idx2[p] = M.full
